@@ -68,9 +68,11 @@ class Contract:
     result_fields: dict[str, str] = field(default_factory=dict)
     exc_fields: dict[str, dict[str, str]] = field(default_factory=dict)  # class -> {attr: type} for raised exceptions at call sites
 
+    variant: str = ""  # a second contract of the same function under other assumptions (verified on its own; call sites use the main one)
+
     @property
     def key(self) -> str:
-        return f"{self.file}:{self.qualname}"
+        return f"{self.file}:{self.qualname}" + (f"@{self.variant}" if self.variant else "")
 
 
 class Registry:
@@ -123,6 +125,7 @@ class Registry:
         locals_types: dict[str, str] | None = None,
         env: dict[str, Any] | None = None,
         exc_fields: dict[str, dict[str, str]] | None = None,
+        variant: str = "",
     ) -> Contract:
         f = file or self._file
         assert f, "call module() first"
@@ -162,6 +165,7 @@ class Registry:
             locals_types=dict(locals_types or {}),
             env=dict(env or {}),
             exc_fields=dict(exc_fields or {}),
+            variant=variant,
         )
         self.contracts[c.key] = c
         return c
